@@ -63,15 +63,26 @@ fn main() {
                 s.push_str(" |P "); show(&top, &mut s);
                 return s;
             }
-            if mode == 0 { verify(&g, &c, &p); } // the verdict comes from the checker's own entry point
+            if mode == 0 {
+                // the verdict comes from the checker's own entry point ALONE; the state dump needs a second run through the
+                // phase glue below (verify returns nothing), and a failure there must not turn an acceptance into REJECT
+                verify(&g, &c, &p);
+                let r2 = catch_unwind(AssertUnwindSafe(|| {
+                    let mut claims: Claims = vec![]; let mut memory: Memory = vec![]; let mut stack: Stack = vec![];
+                    execute_instructions(&g, &mut stack, &mut memory, &mut claims, ExecutionPhase::Gamma);
+                    stack.clear();
+                    execute_instructions(&c, &mut stack, &mut memory, &mut claims, ExecutionPhase::Claim);
+                    stack.clear();
+                    execute_instructions(&p, &mut stack, &mut memory, &mut claims, ExecutionPhase::Proof);
+                    dump_state(&stack, &memory, None)
+                }));
+                return match r2 { Ok(s) => s, Err(_) => String::from("ACCEPT !verify accepted but the three phases run one by one (stack cleared in between) fail") };
+            }
             execute_instructions(&g, &mut stack, &mut memory, &mut claims, ExecutionPhase::Gamma);
             stack.clear();
             execute_instructions(&c, &mut stack, &mut memory, &mut claims, ExecutionPhase::Claim);
             stack.clear();
             execute_instructions(&p, &mut stack, &mut memory, &mut claims, ExecutionPhase::Proof);
-            if mode == 0 {
-                return dump_state(&stack, &memory, None);
-            }
             dump_state(&stack, &memory, Some(&claims))
         }));
         match r { Ok(s) => { outs.push_str(&s); outs.push('\n'); } Err(_) => outs.push_str("REJECT\n") }
